@@ -8,8 +8,9 @@ open Real
 /-- (cos, sin) of an angle in degrees — what numpy/scipy compute (`deg2rad` then cos/sin) -/
 noncomputable def trigDeg (x : ℝ) : Ang ℝ := ⟨cos (x * (π / 180)), sin (x * (π / 180))⟩
 
-/-- the numeric services over ℝ: true trigonometry, true floor -/
-noncomputable def realSvc : Svc ℝ := { trig := trigDeg, floor := fun v => ((⌊v⌋ : ℤ) : ℝ), half := 1 / 2 }
+/-- the numeric services over ℝ: true trigonometry, true rounding half away from zero -/
+noncomputable def realSvc : Svc ℝ :=
+  { trig := trigDeg, round := roundHalfUp (fun v => ((⌊v⌋ : ℤ) : ℝ)) (1 / 2) }
 
 theorem trigDeg_isUnit (x : ℝ) : (trigDeg x).IsUnit := by
   unfold Ang.IsUnit trigDeg
